@@ -72,6 +72,7 @@ def build_history(rnd, mid):
     version, status, inplay, delay = 100, "OPEN", False, 0
     cum = {s: {} for s in SELS}
     mids = {s: rnd.randint(2, 8) for s in SELS}
+    state = {s: {"atb": {}, "atl": {}} for s in SELS}  # the ladder in force per runner (price -> size), for the C07 arrival monitor
     pt = T0
     for t in range(nt):
         pt += rnd.choice([50, 50, 100, 200, 500, 1000, 1000, 2000, 3000])  # short gaps: responses race with fills (latencies are 120-280 ms)
@@ -102,6 +103,7 @@ def build_history(rnd, mid):
                 # remove stale levels
                 for k, side in (("atb", 0), ("atl", 1)):
                     present = {p for p, _ in d[k]}
+                    state[s][k] = {p: v for p, v in d[k]}
                     for p in LADDER:
                         if p not in present:
                             d[k].append([p, 0])
@@ -122,7 +124,7 @@ def build_history(rnd, mid):
         if rc:
             mc["rc"] = rc
         lines.append(json.dumps({"op": "mcm", "clk": "AAA", "pt": pt, "mc": [mc]}))
-        meta.append(dict(pt=pt, inc=inc_t, status=status, delay=delay))
+        meta.append(dict(pt=pt, inc=inc_t, status=status, delay=delay, book={s_: {k: dict(v) for k, v in state[s_].items()} for s_ in SELS}))
     pt += 1000
     lines.append(json.dumps({"op": "mcm", "clk": "AAA", "pt": pt, "mc": [{"id": mid, "marketDefinition": market_definition(mid, "CLOSED", version + 1, inplay, delay, closed=True)}]}))
     return lines, meta
@@ -134,6 +136,7 @@ from flumine.order.order import BaseOrder as _BO
 
 LAST_RESPONSE = [None]
 P6_REOPENED = set()
+P6_COUNT = [0]
 REOPENED_AFTER_SUCCESS = []
 
 
@@ -157,6 +160,7 @@ def _executable(self):
     if self.status == OrderStatus.EXECUTION_COMPLETE:
         if LAST_RESPONSE[0] is not None and LAST_RESPONSE[0][1] == "FAILURE":
             P6_REOPENED.add(id(self))
+            P6_COUNT[0] += 1
         else:
             REOPENED_AFTER_SUCCESS.append("order %s: completed order re-opened (EXECUTABLE) after a %s response %s" % (self.id[-5:], LAST_RESPONSE[0] and LAST_RESPONSE[0][0], LAST_RESPONSE[0] and LAST_RESPONSE[0][1]))
     return _orig_executable(self)
@@ -316,6 +320,23 @@ class Scripted(BaseStrategy):
                 if d > EPS:
                     per[o.selection_id] = per.get(o.selection_id, 0.0) + d
                     n[o.selection_id] = n.get(o.selection_id, 0) + 1
+        if config.simulation_available_prices:
+            # per order: the fill of this update <= half the traded increase + the sizes on offer at or through its limit in this book
+            book = self.meta[self.tick]["book"]
+            for o in self.mine:
+                if o.order_type.ORDER_TYPE != OrderTypes.LIMIT or o.id not in self.prev or o.selection_id not in book:
+                    continue
+                pm, pstatus = self.prev[o.id]
+                if pstatus not in (OrderStatus.EXECUTABLE, OrderStatus.CANCELLING, OrderStatus.REPLACING, OrderStatus.UPDATING):
+                    continue
+                d = o.size_matched - pm
+                side = "atb" if o.side == "BACK" else "atl"
+                offer = sum(v for p_, v in book[o.selection_id][side].items() if (p_ >= o.order_type.price - EPS if o.side == "BACK" else p_ <= o.order_type.price + EPS))
+                cap = sum(inc.get(o.selection_id, {}).values()) / 2.0 + offer
+                if d > cap + 0.01 + EPS:
+                    self.fail("C05", "tick %d order %s %s %s@%s (available-price matching on): filled %.2f in one update, but only %.2f is on offer at or through its limit (levels %s) plus %.2f traded" % (
+                        self.tick, o.id[-5:], o.side, o.order_type.size, o.order_type.price, d, offer, sorted(book[o.selection_id][side].items()), cap - offer))
+            return
         for s, tot in per.items():
             cap = sum(inc.get(s, {}).values()) / 2.0
             if tot > cap + 0.01 * n[s] + EPS:
@@ -330,6 +351,7 @@ class Scripted(BaseStrategy):
         self.passive_fill_monitor(market)
         self.monitors(market, "process_market_book")
         self.due_requests_monitor("process_market_book")
+        self.arrival_monitor()
         for o in self.mine:
             if o.order_type.ORDER_TYPE == OrderTypes.LIMIT:
                 self.prev[o.id] = (o.size_matched, o.status)
@@ -357,6 +379,20 @@ class Scripted(BaseStrategy):
                             if market.place_order(o):
                                 self.mine.append(o)
                                 self.req[o.id] = (now, config.place_latency + market_book.bet_delay)
+                continue
+            inflight = [o for o in self.mine if o.status in (OrderStatus.PENDING, OrderStatus.CANCELLING, OrderStatus.REPLACING) and o.order_type.ORDER_TYPE == OrderTypes.LIMIT]
+            if inflight and rnd.random() < 0.15:
+                # a further request on an order that has a request in flight: rejected with an error and WITHOUT side effects (C03 / C02)
+                o = rnd.choice(inflight)
+                try:
+                    if rnd.random() < 0.6:
+                        market.cancel_order(o, size_reduction=rnd.choice([None, 0.5, 1.0, round(o.order_type.size / 2, 2)]))
+                    else:
+                        market.replace_order(o, rnd.choice([p for p in LADDER if p != o.order_type.price]))
+                    self.fail("C03", "a further request on order %s with status %s was accepted" % (o.id[-5:], o.status.value))
+                except Exception as e:  # OrderUpdateError / OrderExecutionError
+                    if type(e).__name__ not in ("OrderUpdateError", "OrderExecutionError", "OrderError"):
+                        raise
                 continue
             if act < 0.55 or not live:
                 sel = rnd.choice(SELS)
@@ -387,6 +423,27 @@ class Scripted(BaseStrategy):
                 if o.status == OrderStatus.REPLACING:
                     self.inflight[o.id] = (now, config.replace_latency + market_book.bet_delay, "replace")
 
+    def arrival_monitor(self):
+        """C07: a request is executed against the market state that prevailed immediately BEFORE the update at which it takes
+        effect.  A fill fragment booked at a price other than the order's own limit is an arrival fill (passive fills are booked
+        at the limit): its price must be a level of the previous update's ladder on the side the order takes from, and its size
+        at most the size shown there."""
+        if not self.monitor or self.tick <= 0 or self.tick >= len(self.meta):
+            return
+        pt = self.meta[self.tick]["pt"]
+        prev = self.meta[self.tick - 1]["book"]
+        for o in self.mine:
+            if o.order_type.ORDER_TYPE != OrderTypes.LIMIT or o.selection_id not in prev:
+                continue
+            side = "atb" if o.side == "BACK" else "atl"
+            for f in o.simulated.matched:
+                if f[0] == pt and abs(f[1] - o.order_type.price) > EPS:
+                    shown = prev[o.selection_id][side].get(f[1])
+                    if shown is None or f[2] > shown + EPS:
+                        self.fail("C06", "tick %d order %s: it arrived against the book AFTER this update (arrival fill %s@%s is not on the previous ladder), yet this update's traded volume is offered to it: volume that traded before it arrived" % (self.tick, o.id[-5:], f[2], f[1]))
+                        self.fail("C07", "tick %d order %s %s %s@%s: arrival fill %s@%s, but the ladder in force immediately before this update shows %s at that price (levels %s): the request was not executed against the state before the update"
+                                  % (self.tick, o.id[-5:], o.side, o.order_type.size, o.order_type.price, f[2], f[1], shown, sorted(prev[o.selection_id][side])))
+
     def due_requests_monitor(self, where):
         """C07: a request takes effect at the FIRST update more than its latency (+ bet delay) after it - whatever that update is"""
         if not self.monitor:
@@ -414,8 +471,9 @@ class Scripted(BaseStrategy):
                 STATS["fok"] += o.order_type.time_in_force == "FILL_OR_KILL"
 
 
-def run(path, meta, seeds, failures, monitor_idx=None):
-    config.simulated_strategy_isolation = True
+def run(path, meta, seeds, failures, monitor_idx=None, isolation=True, available=False):
+    config.simulated_strategy_isolation = isolation
+    config.simulation_available_prices = available
     client = clients.SimulatedClient()
     fw = FlumineSimulation(client=client)
     strategies = []
@@ -444,13 +502,47 @@ def main():
             sa, sb = rnd.randint(1, 10**6), rnd.randint(1, 10**6)
             try:
                 both = run(path, meta, [sa, sb], failures)
+                P6_COUNT[0] = 0
                 alone = run(path, meta, [sa], failures)
+                p6_alone = P6_COUNT[0]
                 swapped = run(path, meta, [sb, sa], failures)
             except Exception as e:
                 import traceback
                 failures.setdefault("CRASH", []).append(traceback.format_exc()[-900:])
                 break
             evaluations += 3
+            # isolation switched off: with a single strategy there is nobody to share the traded volume with, so every order -
+            # resting, or with a cancel / replace in flight (C07: it remains fillable as before) - is filled exactly as with
+            # isolation on (C06: a lone resting order is filled by exactly that amount, in both modes)
+            try:
+                P6_COUNT[0] = 0
+                alone_off = run(path, meta, [sa], failures, isolation=False)
+            except Exception:
+                import traceback
+                failures.setdefault("CRASH", []).append(traceback.format_exc()[-900:])
+                break
+            finally:
+                config.simulated_strategy_isolation = True
+            evaluations += 1
+            # (an order re-opened inside the recorded region P6 is EXECUTABLE but no longer in the live list: the two modes pick
+            #  their candidates from different lists, so the comparison is only made when neither run entered that region)
+            if p6_alone == 0 and P6_COUNT[0] == 0 and alone_off[0].ledger != alone[0].ledger:
+                d = next((i for i, (x, y) in enumerate(zip(alone[0].ledger, alone_off[0].ledger)) if x != y), None)
+                msg = "a strategy running alone is filled differently with strategy isolation off than with it on (first difference at callback %s): on %s / off %s" % (
+                    d, str(alone[0].ledger[d])[:400] if d is not None else None, str(alone_off[0].ledger[d])[:400] if d is not None else None)
+                for k in ("C06", "C07"):
+                    failures.setdefault(k, []).append(msg)
+            # resting orders also matched against the prices on offer (config.simulation_available_prices): the same conservation /
+            # limit monitors, plus the per-update bound of passive_fill_monitor extended by the sizes on offer within the limit
+            try:
+                run(path, meta, [sa], failures, available=True)
+            except Exception:
+                import traceback
+                failures.setdefault("CRASH", []).append(traceback.format_exc()[-900:])
+                break
+            finally:
+                config.simulation_available_prices = False
+            evaluations += 1
             n_orders = len(both[0].mine) + len(both[1].mine)
             distinct.add((len(meta), n_orders, sum(1 for o in both[0].mine if o.size_matched > 0)))
             # C13: ledger of strategy sa identical alone / with sb / registration order swapped
@@ -465,7 +557,7 @@ def main():
     finally:
         shutil.rmtree(tmp, ignore_errors=True)
     if REOPENED_AFTER_SUCCESS:
-        for k in ("C03", "C15", "C10"):
+        for k in ("C03", "C15", "C10", "C09"):  # C09: "the voided order completes whatever state it was in (pending an operation)" rests on the same rule: a late SUCCESS response never re-opens a completed order
             failures.setdefault(k, []).insert(0, REOPENED_AFTER_SUCCESS[0] + " - it is not complete but has left the live list, its trade was completed")
     print(json.dumps(dict(evaluations=evaluations, distinct=len(distinct), stats=STATS, failures={k: v[:3] for k, v in failures.items()})))
 
